@@ -194,3 +194,10 @@ def run_jobs(ctx, unit, header, jobs, workers=4, cap=400):
         for i, c in zip(idx, codes):
             out[label][i] = c
     return out
+
+
+def bulk(k):
+    """number of 1000-row batches of a thorough-tier bulk plan entry written for 10 batches per generator family.
+    Default 6 per family (about 6000 rows; thorough stays below 15 min on a heavily loaded machine); VERIF_C18_BULK=10 gives the full 10^4 rows."""
+    b = int(os.environ.get("VERIF_C18_BULK", "6"))
+    return max(1, (k * b + 5) // 10)
